@@ -149,6 +149,26 @@ Theorem C01_typiclust_unbound_refuted :
 Proof. exact typiclust_unbound_refuted. Qed.
 Print Assumptions C01_typiclust_unbound_refuted.
 
+
+(* sampling loops (Badge, Falcun): earlier picks get weight 0, a fallback to weight 1 for everything
+   that is not an earlier pick when nothing is left; for EVERY raw weight oracle and every sequence of
+   draws that respects numpy's contract for choice (positive probability) the batch is duplicate-free
+   and inside the candidates; and a positive weight always exists while a candidate is left *)
+Theorem C01_sampling_loop_valid_batch :
+  forall (m : nat) (raws : list (list Z)) (picks : list nat),
+  Forall (fun r => length r = m) raws -> contract_ok raws picks [] = true ->
+  NoDup (map fst (sampling_trace raws picks [])) /\
+  Forall (fun p => p < m) (map fst (sampling_trace raws picks [])).
+Proof. exact sampling_valid_batch. Qed.
+Print Assumptions C01_sampling_loop_valid_batch.
+
+Theorem C01_sampling_weights_available :
+  forall (raw : list Z) (prev : list nat) (j : nat),
+  Forall (fun v => (0 <= v)%Z) raw -> j < length raw -> memb j prev = false ->
+  exists i, i < length raw /\ (0 < nth i (sweights raw prev) 0)%Z.
+Proof. exact sweights_available. Qed.
+Print Assumptions C01_sampling_weights_available.
+
 (* non-vacuity: a 6-sample pool, two labeled samples, ties among the utilities *)
 Example C01_nonvacuous :
   let lab := [true; false; false; true; false; false] in
